@@ -20,6 +20,33 @@ _tls = threading.local()
 _world = None  # the world currently running (one at a time per process)
 
 
+_warm = False
+
+
+def _warm_up():
+    """Once per process, before any rank thread exists: take one serial optimizer step per dtype in the main thread, so that
+    every lazily initialised piece of the numeric stack (kernel dispatch, BLAS / LAPACK / vector-math library set-up) is
+    initialised single-threaded.  Rank threads stand in for processes, and a process never shares such initialisation."""
+    global _warm
+    if _warm:
+        return
+    _warm = True
+    try:
+        import torch
+        from distributed_shampoo.distributed_shampoo import DistributedShampoo
+        from distributed_shampoo.shampoo_types import AdamGraftingConfig
+
+        for dt in (torch.float32, torch.float64, torch.bfloat16):
+            ps = [torch.nn.Parameter(torch.ones(3, 2, dtype=dt)), torch.nn.Parameter(torch.ones(3, dtype=dt))]
+            opt = DistributedShampoo(ps, lr=0.01, betas=(0.9, 0.99), momentum=0.5, use_nesterov=True, max_preconditioner_dim=2, precondition_frequency=1, start_preconditioning_step=1, grafting_config=AdamGraftingConfig(beta2=0.99, epsilon=1e-3), preconditioner_dtype=torch.float32 if dt == torch.bfloat16 else dt)
+            for _ in range(2):
+                for p in ps:
+                    p.grad = torch.full_like(p, 0.5) + torch.arange(p.numel(), dtype=dt).view(p.shape)
+                opt.step()
+    except Exception:  # noqa  (best effort: the warm-up is not part of any oracle)
+        pass
+
+
 class WorldAbort(BaseException):
     """raised inside rank threads when the world is torn down (deadlock detected / peer failed)"""
 
@@ -211,6 +238,7 @@ class World:
         from torch.testing._internal.distributed.multi_threaded_pg import ProcessLocalGroup
 
         install()
+        _warm_up()
         with _lock:
             if _world is not None:
                 raise Inconclusive("another simulated world is still running in this process")
